@@ -13,9 +13,16 @@ mechanism does not already cover is replaced by a copy of the callee's blocks:
     bb_ret:   _dest = move _ret'; goto bb_next
 
 Public functions are never inlined: rules that are *about* calls of the public API (add_arc in conversions, has_arc in
-derived queries, generators) must keep seeing those calls.  `unsafe fn` helpers are not inlined either: their unsafe
-sites keep being reported in, and trusted by, the function they are written in."""
+derived queries, generators) must keep seeing those calls.
+
+Helpers that contain unsafe operations are inlined as well (`unsafe fn relax(dist_ptr, arc)`, `fn mark(&mut self, v)`
+written with a raw pointer): the obligations of an `unsafe fn` are its callers' by Rust's own convention, and a private
+helper can only be reached through its call sites, so its unsafe sites are judged in the context of every caller.  A
+helper every call of which was inlined is not judged on its own any more (`crate.inlined_away`).  Exception: a helper
+that owns an entry of the reviewed trust table keeps being analysed where it is written (the entry is keyed by it)."""
 import copy
+import json
+import os
 
 MAX_BLOCKS = 60
 MAX_DEPTH = 3
@@ -94,11 +101,25 @@ def _shift_term(t, off, boff, ret_block):
     return u
 
 
-def inlinable(prog_fns, summaries, callee_path):
+_TRUSTED_FNS = None
+
+
+def _trusted_fn_names():
+    global _TRUSTED_FNS
+    if _TRUSTED_FNS is None:
+        path = os.path.join(os.path.dirname(os.path.dirname(os.path.abspath(__file__))), "tables", "trusted_sites.json")
+        try:
+            _TRUSTED_FNS = {e["fn"].split("::{closure")[0] for e in json.load(open(path))}
+        except (OSError, ValueError):
+            _TRUSTED_FNS = set()
+    return _TRUSTED_FNS
+
+
+def inlinable(prog_fns, summaries, callee_path, pretty=None, allow_unsafe=None):
     g = prog_fns.get(callee_path)
     if g is None or g["kind"] == "Closure":
         return False
-    if g.get("vis") == "Public" or g.get("unsafe"):
+    if g.get("vis") == "Public":
         return False
     if "impl_trait" in g or "trait_default_of" in g:
         return False
@@ -106,9 +127,26 @@ def inlinable(prog_fns, summaries, callee_path):
         return False
     if len(g["blocks"]) > MAX_BLOCKS:
         return False
-    if _has_unsafe_ops(g) or _calls(g, callee_path, prog_fns, set()):
+    if _calls(g, callee_path, prog_fns, set()):
         return False
+    if g.get("unsafe") or _has_unsafe_ops(g):
+        if pretty is not None and pretty.get(callee_path, callee_path) in _trusted_fn_names():
+            return False
+        return allow_unsafe is not None and (allow_unsafe == "all" or callee_path in allow_unsafe)
     return True
+
+
+def unsafe_helper_candidates(fns, summaries, pretty):
+    """private helpers with unsafe operations that phase 2 may inline (see Crate.__init__)"""
+    by_path = {f["path"]: f for f in fns}
+    return [f["path"] for f in fns if f["kind"] in ("Fn", "AssocFn") and (f.get("unsafe") or _has_unsafe_ops(f))
+            and inlinable(by_path, summaries, f["path"], pretty, "all")]
+
+
+def _has_closures(g, prog_fns):
+    """the body builds closures: their bodies are separate functions whose `parent` link would no longer name the body
+    they are evaluated in"""
+    return any(h.get("parent") == g["path"] for h in prog_fns.values() if h["kind"] == "Closure")
 
 
 def _has_unsafe_ops(g):
@@ -135,6 +173,9 @@ def _has_unsafe_ops(g):
         if t["k"] == "call":
             fo = t["func"]
             if fo.get("k") == "const" and "fn" in fo and fo["fn"].get("unsafe"):
+                # format_args! inside assert! / panic! expands to an unsafe constructor call
+                if any(e.startswith("macro:") for e in (b.get("tspan") or {}).get("exp", [])):
+                    continue
                 return True
     return False
 
@@ -160,10 +201,11 @@ def _calls(g, target, prog_fns, seen):
     return False
 
 
-def inline_helpers(fns, summaries):
-    """mutates the function records in place; returns {caller path: [callee paths inlined]}"""
+def inline_helpers(fns, summaries, pretty=None, allow_unsafe=None):
+    """mutates the function records in place; returns ({caller path: [callee paths inlined]}, helpers inlined at every call)"""
     by_path = {f["path"]: f for f in fns}
     done = {}
+    kept_calls = set()      # helpers with a call site that was not inlined
     for f in fns:
         if f["kind"] not in ("Fn", "AssocFn", "Closure"):
             continue
@@ -190,7 +232,7 @@ def inline_helpers(fns, summaries):
                 cp = fn.get("resolved") or fn["path"]
                 if cp == f["path"] or cp in chain[1:]:
                     continue
-                if not inlinable(by_path, summaries, cp):
+                if not inlinable(by_path, summaries, cp, pretty, allow_unsafe):
                     continue
                 g = by_path[cp]
                 if len(t["args"]) != g["arg_count"]:
@@ -198,7 +240,27 @@ def inline_helpers(fns, summaries):
                 _splice(f, bi, g)
                 done.setdefault(f["path"], []).append(cp)
                 changed = True
-    return done
+    inlined = {cp for v in done.values() for cp in v}
+    # remaining direct calls / references of an inlined helper anywhere keep it alive as a function of its own
+    for f in fns:
+        for b in f["blocks"]:
+            t = b["term"]
+            if t["k"] == "call":
+                fo = t["func"]
+                if fo.get("k") == "const" and "fn" in fo:
+                    cp = fo["fn"].get("resolved") or fo["fn"].get("path")
+                    if cp in inlined and cp != f["path"]:
+                        kept_calls.add(cp)
+            for s_ in b["stmts"]:
+                rv = s_.get("rv") or {}
+                for k in ("op", "a", "b"):
+                    o_ = rv.get(k)
+                    if isinstance(o_, dict) and o_.get("k") == "const" and isinstance(o_.get("fn"), dict):
+                        cp = o_["fn"].get("resolved") or o_["fn"].get("path")
+                        if cp in inlined:
+                            kept_calls.add(cp)
+    away = {cp for cp in inlined if cp not in kept_calls}
+    return done, away
 
 
 def _splice(f, bi, g):
